@@ -15,7 +15,8 @@ PY_TARGET = "PyLibSd PySrcSdBase PySrcSdTarget PySrcSdTargetFacts"   # _sd_algor
 PY_CORE = "PyLibCore PySrcCore PySrcCoreFacts"                    # succession_diagram.py: _update_node_depth, _ensure_edge, _ensure_node, _expand_one_node, node_successors, node_is_minimal, __len__, root
 PY_CORE2 = PY_CORE + " PyLibCore2 PySrcCore2 PySrcCore2Facts"    # succession_diagram.py: skip_to_minimal, skip_remaining, depth, reclaim_node_data
 PY_MIN = "PyLib PyLibSd PyLibCore PyLibSd2 PySrcSdBase PySrcSdMin PySrcSdMinFacts"   # _sd_algorithms/expand_minimal_spaces.py
-EXTRA_IMPORTS = {"C02": PY_SD + " " + PY_CORE, "C03": PY_SD + " " + PY_MIN, "C04": PY_SD + " " + PY_CORE, "C05": PY_CORE2 + " " + PY_MIN, "C14": PY_CORE2, "C15": PY_SD + " " + PY_TARGET + " " + PY_MIN,
+PY_ASEEDS = PY_MIN + " Candidates Blocks ASeeds PySrcSdASeeds PySrcSdASeedsFacts"     # _sd_algorithms/expand_attractor_seeds.py
+EXTRA_IMPORTS = {"C02": PY_SD + " " + PY_CORE, "C03": PY_SD + " " + PY_ASEEDS, "C04": PY_SD + " " + PY_CORE, "C05": PY_CORE2 + " " + PY_MIN, "C14": PY_CORE2, "C15": PY_SD + " " + PY_TARGET + " " + PY_ASEEDS,
                  "C06": PY_SPACE + " " + PY_TARGET, "C10": PY_PLACE, "C19": PY_SD + " " + PY_CORE, "C20": PY_KEY + " " + PY_CORE2}
 
 def imports_for(pid):
@@ -138,6 +139,8 @@ expand_scc_LeafOK, expand_scc_MinFound) -- although the diagram it builds is not
 statement has a theorem.""",
  theorems=[("source_expand_minimal_spaces", "py_expand_minimal_spaces_spec", "translator tie: the function GENERATED from the current text of biobalm/_sd_algorithms/expand_minimal_spaces.py (with its nested make_skip_node; PySrcSdMin.v) equals the model's expand_min on every well-formed diagram, for every start node, limit, skip option and fuel, given the tape contract"),
            ("source_public_expand_minimal_spaces", "py_api_expand_minimal_spaces_spec", None),
+           ("source_expand_attractor_seeds", "py_expand_attractor_seeds_spec", "translator tie: the function GENERATED from the current text of biobalm/_sd_algorithms/expand_attractor_seeds.py (PySrcSdASeeds.v: the initial minimal-space expansion, the DFS with the candidate query -- avoid sets, heuristic retained set, reduced-STG fixed points -- and the NFVS tape) equals the model's ASeeds.expand_aseeds"),
+           ("source_public_expand_attractor_seeds", "py_api_expand_attractor_seeds_spec", None),
            ("source_make_skip_node", "py_make_skip_node_spec_weak", "the nested make_skip_node on its own equals the model's make_skip_node when the node is expanded or its space is not one of the minimal trap spaces (always the case inside expand_minimal_spaces); without that condition the text asserts where the model adds a self-loop: py_make_skip_node_spec_counterexample"),
            ("source_make_skip_node_counterexample", "py_make_skip_node_spec_counterexample", None),
            ("source_expand_bfs", "py_expand_bfs_spec_all", "translator tie: the function GENERATED from the current text of biobalm/_sd_algorithms/expand_bfs.py (PySrcSd.v, regenerated on every run; embedding PyLibSd.v) equals the model's expand_bfs for every diagram, every limit and every fuel"),
@@ -429,7 +432,7 @@ RRaised ..., RBool true): all invariants below are stated for fst (step ...) WIT
 result, so they hold at every early stop and every raised limit error.  Resumption: from any such state an
 unrestricted BFS/DFS completes to a Hierarchy (bfs_complete / dfs_complete).""",
  theorems=[("source_expand_to_target", "py_expand_to_target_spec_all", "translator tie: the limit handling of the strategy drivers as written in the source (expand_to_target, expand_bfs, expand_dfs, expand_minimal_spaces) is the model's"),
-           ("source_expand_bfs", "py_expand_bfs_spec_all", None), ("source_expand_dfs", "py_expand_dfs_spec_all", None), ("source_expand_minimal_spaces", "py_expand_minimal_spaces_spec", None),
+           ("source_expand_bfs", "py_expand_bfs_spec_all", None), ("source_expand_dfs", "py_expand_dfs_spec_all", None), ("source_expand_minimal_spaces", "py_expand_minimal_spaces_spec", None), ("source_expand_attractor_seeds", "py_expand_attractor_seeds_spec", None),
            ("step_SWF", "step_SWF", None), ("step_Faithful_all", "step_Faithful_all", None), ("step_NoStubEdges", "step_NoStubEdges", None),
            ("step_CacheOK", "step_CacheOK", None), ("step_extends", "step_extends", "nothing is ever removed or renumbered"),
            ("expand_one_raise_unchanged", "expand_one_raise_unchanged", None), ("bfs_complete", "bfs_complete", "True from an unrestricted BFS means everything is expanded"),
